@@ -81,7 +81,8 @@ Definition fmt_int (z : Z) : bytes :=
 
 (** Go conversion [int(u)] of a uint64 on a 64-bit platform. *)
 Definition uint64_to_int (v : N) : Z :=
-  if v <? two63 then Z.of_N v else (Z.of_N v - Z.of_N two64)%Z.
+  let u := v mod two64 in                      (* a uint64 *)
+  if u <? two63 then Z.of_N u else (Z.of_N u - Z.of_N two64)%Z.
 
 (** * parseHeader *)
 
